@@ -2,7 +2,10 @@ module verifharness
 
 go 1.22
 
-require github.com/jamf/regatta v0.0.0
+require (
+	github.com/jamf/regatta v0.0.0
+	github.com/lni/dragonboat/v4 v4.0.0-20231222133740-1d6e2d76cd57
+)
 
 require (
 	github.com/DataDog/zstd v1.5.5 // indirect
@@ -30,7 +33,6 @@ require (
 	github.com/klauspost/compress v1.17.8 // indirect
 	github.com/kr/pretty v0.3.1 // indirect
 	github.com/kr/text v0.2.0 // indirect
-	github.com/lni/dragonboat/v4 v4.0.0-20231222133740-1d6e2d76cd57 // indirect
 	github.com/lni/goutils v1.4.0 // indirect
 	github.com/lni/vfs v0.2.1-0.20220616104132-8852fd867376 // indirect
 	github.com/miekg/dns v1.1.56 // indirect
